@@ -17,7 +17,7 @@ PROPS["C12"] = dict(
     explanation=MIX)
 PROPS["C18"] = dict(
     level="other", claimed=True, verus=True,
-    level_text='Verus (unit policyv, bodies cut out of /repo, named estimates): Proof::security_level passes (options, claimed modulus bits, trace length, collision resistance) to the conjectured resp. proven estimate in that order; AcceptableOptions::validate accepts exactly when the level of the requested kind reaches the minimum, resp. when the option set contains the proof's options. get_conjectured_security equals the documented formula, without overflow, and is monotone, for every parameter combination a parsed context can carry (Kani, full domain); get_proven_security is total (no overflow / underflow / panic) for arbitrary libm results; num_modulus_bits is the bit length of the claimed modulus; AcceptableOptions::validate consults the right estimate and rejects exactly below the minimum (contract relative to Proof::security_level); VerifierChannel::new refuses with InconsistentBaseField every proof whose claimed modulus (7, 8, 9 or 14 symbolic bytes) is not byte for byte the modulus of the base field of the computation.',
+    level_text='Verus (unit policyv, bodies cut out of /repo, named estimates): Proof::security_level passes (options, claimed modulus bits, trace length, collision resistance) to the conjectured resp. proven estimate in that order; AcceptableOptions::validate accepts exactly when the level of the requested kind reaches the minimum, resp. when the option set contains the options of the proof. get_conjectured_security equals the documented formula, without overflow, and is monotone, for every parameter combination a parsed context can carry (Kani, full domain); get_proven_security is total (no overflow / underflow / panic) for arbitrary libm results; num_modulus_bits is the bit length of the claimed modulus; AcceptableOptions::validate consults the right estimate and rejects exactly below the minimum (contract relative to Proof::security_level); VerifierChannel::new refuses with InconsistentBaseField every proof whose claimed modulus (7, 8, 9 or 14 symbolic bytes) is not byte for byte the modulus of the base field of the computation.',
     level_note='Not decided: the numeric value and monotonicity of get_proven_security (f64 log2/powf/sqrt have no faithful model in CBMC; they are stubbed to arbitrary floats); the closure of the OptionSet arm of validate is replaced by a proved loop in the Verus unit (stated rewrite) and exercised as written by the stand-in verifier_side_native.',
     explanation=MIX)
 PROPS["C19"] = dict(
